@@ -745,4 +745,4 @@ MANIFEST = {
     'design_ref': 'DESIGN.md 3/C04',
 }
 MANIFEST['note'] += (' Also decided here (necessary conditions shared between properties or added after the independent '
-                     'change rounds, DESIGN.md 8.7): writers of self.dh and retry owner (from C01), algorithm structure carries the whole key (from C14).')
+                     'change rounds, DESIGN.md 8.7): writers of self.dh and retry owner (from C01), algorithm structure carries the whole key (from C14). Rounds 7-8: the role handed to the kernel installation is the role in this exchange; inputs of the IKE key derivation at both negotiation functions (from C01).')
